@@ -214,6 +214,12 @@ func (p *Proof) SetExpected(pk *gabikeys.PublicKey, challenge, response *big.Int
 			return errors.New("malformed nonrevocation proof")
 		}
 	}
+	// Cr and Cu must be invertible modulo N. If one of them is 0 modulo N, every product it occurs in is 0
+	// whatever the responses are: the relations it is part of would then hold vacuously, and the holder of a
+	// revoked credential could produce an accepted proof.
+	if new(big.Int).GCD(nil, nil, p.Cr, pk.N).Cmp(bigOne) != 0 || new(big.Int).GCD(nil, nil, p.Cu, pk.N).Cmp(bigOne) != 0 {
+		return errors.New("malformed nonrevocation proof")
+	}
 	acc, err := p.SignedAccumulator.UnmarshalVerify(pk)
 	if err != nil {
 		return err
